@@ -21,15 +21,29 @@ def showRes : Except Err (List UInt8) → String
   | .ok r => "ok " ++ hexEncode r
   | .error e => "err " ++ showErr e
 
-/-- `c11.legacy parts=[([leafhex…],<mapproof>)…]` -/
+/-- a part whose proof text does not decode (`MalformedData`) is written `([leafhex…],bad)` -/
+def parsePartM : Val → Option (List (List UInt8) × Option (MapProof (List UInt8)))
+  | .l [ls, .s "bad"] => do pure (← Handlers.C09.hexList (← ls.list?), none)
+  | .l [ls, p] => do pure (← Handlers.C09.hexList (← ls.list?), some (← Handlers.C09.parseMap p))
+  | _ => none
+
+/-- `c11.legacy parts=[([leafhex…],<mapproof>|bad)…]`. The loop of `CardanoTransactionsProofsMessage::verify` handles one
+part at a time — decode, verify, compare the root — so the class reported is the one of the FIRST failing part: the parts
+before the first undecodable one decide, then `malformed`. -/
 def legacyReq (r : Req) : Option String := do
-  let parts ← (← r.list "parts").mapM parsePart
-  pure (showRes (verifyLegacy mergeS parts))
+  let parts ← (← r.list "parts").mapM parsePartM
+  let pre := (parts.takeWhile (·.2.isSome)).filterMap fun (ls, p) => p.map fun q => (ls, q)
+  if pre.length == parts.length then pure (showRes (verifyLegacy mergeS pre))
+  else
+    pure (match rootsLoop mergeS pre none with
+      | .error e => "err " ++ showErr e
+      | .ok _ => "err malformed")
 
 /-- `c11.v2 part=([leafhex…],<mapproof>)` or `part=none` -/
 def v2Req (r : Req) : Option String := do
   match ← r.get? "part" with
   | .s "none" => pure (showRes (verifyV2 mergeS (none : Option (List (List UInt8) × MapProof (List UInt8)))))
+  | .l [_, .s "bad"] => pure "err malformed"
   | v => do
     let part ← parsePart v
     pure (showRes (verifyV2 mergeS (some part)))
